@@ -23,7 +23,8 @@ STATE_MEASURE = "distinct (configuration signature, schedule plan, optimiser mod
 COMPONENTS_REAL = ["gemclus estimators (all 17 gradient-trained families), _batchify, mlcl decorators, _path, compute_val_score",
                    "gemclus GEMINIs (compute_affinity/evaluate)", "scikit-learn validation, kernels, SGD/Adam moment updates"]
 COMPONENTS_STUB = ["RandomState.permutation (simulator-chosen batch orders in adversarial runs; faithful pass-through otherwise)",
-                   "BaseOptimizer.update_params (real / identity / scaled)", "SimGemini + SimKernel wrappers (logging only here)"]
+                   "BaseOptimizer.update_params (real / identity / scaled)", "SimGemini + SimKernel wrappers (logging only here)",
+                   "crash at an arbitrary point: seams.LineCrash (sys.settrace) raises when the k-th source line of the library is about to run, in interrupted calls of the history"]
 ASSUMPTIONS = ["rows of the training array are pairwise distinct so a batch row identifies one sample (generated continuous data)",
                "whether compute_affinity returns the right kernel is C11 (not claimed); C10 compares blocks with the matrix the run computed",
                "path() raising is not judged here (C07)"]
